@@ -412,12 +412,47 @@ pub fn numeric_oracle(text: &[u8], res: &str, fast: bool) -> Option<String> {
     }
 }
 
+/// The numeric-literal grammar of C05: optional radix prefix, optional sign, digits of the radix, and for
+/// decimal literals an optional fraction and exponent.
+pub fn is_numeric_literal(t: &str) -> bool {
+    let (radix, body) = if let Some(b) = t.strip_prefix("#b") { (2u32, b) } else if let Some(b) = t.strip_prefix("#o") { (8, b) } else if let Some(b) = t.strip_prefix("#x") { (16, b) } else if let Some(b) = t.strip_prefix("#d") { (10, b) } else { (10, t) };
+    let body = body.strip_prefix(|c| c == '+' || c == '-').unwrap_or(body);
+    let b = body.as_bytes();
+    let mut i = 0;
+    while i < b.len() && (b[i] as char).is_digit(radix) { i += 1; }
+    if i == 0 { return false; }
+    if radix != 10 { return i == b.len(); }
+    if i < b.len() && b[i] == b'.' {
+        i += 1;
+        let f0 = i;
+        while i < b.len() && b[i].is_ascii_digit() { i += 1; }
+        if i == f0 { return false; }
+    }
+    if i < b.len() && (b[i] == b'e' || b[i] == b'E') {
+        i += 1;
+        if i < b.len() && (b[i] == b'+' || b[i] == b'-') { i += 1; }
+        let e0 = i;
+        while i < b.len() && b[i].is_ascii_digit() { i += 1; }
+        if i == e0 { return false; }
+    }
+    i == b.len()
+}
+
 /// C08: what a whole token at top level must read as, written from the option documentation.
 /// `None` = no expectation encoded here (the token is left to the correspondence).
 pub fn classify(tok: &str, r: &str) -> Option<String> {
     let sym = |s: &str| format!("val Y{}", hex(s.as_bytes()));
     let kw = |s: &str| format!("val K{}", hex(s.as_bytes()));
     let (kpre, kpost, koct) = (d(r, 0) == 1, d(r, 1) == 1, d(r, 2) == 1);
+    // the quote shorthands always expand to two-element lists, in the order written, at any nesting
+    for (sh, name) in [(",@", "unquote-splicing"), ("'", "quote"), ("`", "quasiquote"), (",", "unquote")] {
+        if let Some(rest) = tok.strip_prefix(sh) {
+            if rest.is_empty() { return None; }
+            let inner = classify(rest, r)?;
+            if !inner.starts_with("val ") { return None; }
+            return Some(format!("val c Y{} c {} U", hex(name.as_bytes()), &inner[4..]));
+        }
+    }
     Some(match tok {
         "nil" => match d(r, 3) { 1 => sym("nil"), 0 => "val U".into(), _ => "val N".into() },
         "t" => if d(r, 4) == 1 { sym("t") } else { "val T".into() },
@@ -609,9 +644,33 @@ fn check_inner(line: &str, res: &str, t: &[&str], mut m: Vec<String>) -> Vec<Str
                     if !location_ok(&data, l, c) { m.push(format!("FAIL C19 error location {}:{} outside the input", l, c)); }
                 }
             }
+            // C03: "nesting of at least 100 levels is accepted" — whatever one parser has read before (errors
+            // included), an input that never nests deeper than 100 must not hit the recursion limit.  The bound
+            // below over-approximates the nesting (shorthands are never closed, closers only lower it), so the
+            // rule is applied only where it is certain; texts with strings, comments or escapes are left out.
+            if res.contains("recursionLimitExceeded") && !data.iter().any(|b| matches!(b, b'"' | b';' | b'\\' | b'|')) {
+                let (mut dep, mut maxd) = (0usize, 0usize);
+                for (i, b) in data.iter().enumerate() {
+                    match b {
+                        b'(' | b'[' | b'\'' | b'`' | b',' => { dep += 1; maxd = maxd.max(dep); }
+                        b')' | b']' => dep = dep.saturating_sub(1),
+                        _ => {}
+                    }
+                    let _ = i;
+                }
+                if maxd <= 100 { m.push(format!("FAIL C03 input nested at most {} levels is rejected with recursionLimitExceeded", maxd)); }
+            }
             if src == "b" && (api == "r:v:6" || api == "r:d:6") {
                 // C08: whole tokens alone at top level (the bare position of the token family)
                 if let Ok(text) = std::str::from_utf8(&data) {
+                    // "a token is read as a number only if the whole token is a numeric literal": an input without
+                    // trivia that is read as exactly one number and nothing else must be such a literal
+                    let first = strip_dat(items[0]);
+                    let ff: Vec<&str> = first.split_whitespace().collect();
+                    let one_number = ff.len() == 2 && ff[0] == "val" && matches!(ff[1].as_bytes()[0], b'P' | b'M' | b'D') && items.get(1) == Some(&"none") && items.len() == 2;
+                    if one_number && !text.bytes().any(|b| b.is_ascii_whitespace() || b == b';') && !is_numeric_literal(text) {
+                        m.push(format!("FAIL C08 token {:?} under options {} is not a numeric literal as a whole but reads as the number {}", text, ro, res));
+                    }
                     if let Some(want) = classify(text, ro) {
                         let first = strip_dat(items[0]);
                         if want == "ERR" {
@@ -918,6 +977,7 @@ fn check_inner(line: &str, res: &str, t: &[&str], mut m: Vec<String>) -> Vec<Str
         "ser" | "de" | "deser" => crate::serde_ops::check(&t, res, &mut m),
         #[cfg(feature = "full")]
         "serx" => m.extend(crate::serde_extra::run(t[1].parse().unwrap_or(1))),
+        "clone" | "dclone" | "consmut" => crate::cons_ops::check(&t, res, &mut m),
         _ => {}
     }
     m
